@@ -255,8 +255,7 @@ theorem unLen_none_key {comp : Bool} {fb n : Nat} (h : n < keyLen comp 0 (fb != 
 
 /-! ### first bytes and flags -/
 
-/-- first byte as a number (what `decode` inspects). -/
-def firstByte (bs : List UInt8) : Nat := (bs.headD 0).toNat
+-- `firstByte` (first byte as a number, what `decode` inspects) is defined in `Impl/Marshal.lean`.
 
 theorem firstByte_lt (bs : List UInt8) : firstByte bs < 256 := (bs.headD 0).toNat_lt
 
@@ -719,22 +718,8 @@ namespace Jedi.Impl
 section
 variable {F : Type} {o : FieldOps F}
 
-/-- `coordinate_is_canonical(value, encoded, allowed_flags)`: re-serialise, copy the allowed flag
-bits of the input's first byte, compare. -/
-def coordCanonical (o : FieldOps F) (v : F) (enc : List UInt8) (allowed : Nat) : Bool :=
-  orFirst (o.toBytes v) ((enc.headD 0).toNat &&& allowed) == enc
-
-/-- Validating decode of the repaired library: `decode … checked = true` plus the canonicity test
-of every coordinate that was read (x with the three flag bits allowed, y with none). -/
-def decodeChecked (o : FieldOps F) (inSub : Pt F → Bool) (compressed : Bool) (bs : List UInt8) :
-    Option (Pt F) :=
-  match decode o inSub compressed true bs with
-  | none => none
-  | some .inf => some .inf
-  | some (.aff x y) =>
-    if coordCanonical o x (bs.take o.size) 224 &&
-        (compressed || coordCanonical o y ((bs.drop o.size).take o.size) 0)
-    then some (.aff x y) else none
+-- `coordCanonical` (`coordinate_is_canonical`) and `decodeChecked` (validating decode of the repaired library) are
+-- defined in `Impl/Marshal.lean` (executable, Mathlib-free: the judge's unmarshalling models use them).
 
 /-- the curve test of checked uncompressed decoding, on points. -/
 def onCurvePt (o : FieldOps F) : Pt F → Bool
